@@ -189,7 +189,10 @@ func cvWrite(path string, f cvFile) error {
 
 func genCreateVerify(r *Rng, n int, tier string) []Case {
 	var cases []Case
-	names := []string{"a", "b", "c.txt", "d.bin", "e", "zz", "A", "0", "x_y", "ü", ".hidden", "_____padding_file_0", "long-name-with-dashes.tar.gz"}
+	names := []string{"a", "b", "c.txt", "d.bin", "e", "zz", "A", "0", "x_y", "ü", ".hidden", "_____padding_file_0", "long-name-with-dashes.tar.gz",
+		// siblings of the directories below whose names continue the directory name with a character that sorts
+		// before '/': directory-walk order and joined-path order differ
+		"sub.txt", "sub-1", "sub!", "a.d-x", "a.d.bak", "Z.z", "Z-", "sub/deep.log", "sub/deep-2"}
 	dirs := []string{"", "", "", "sub/", "sub/deep/", "a.d/", "Z/"}
 	for i := 0; i < n; i++ {
 		pl := 16384 * r.Pick(1, 1, 1, 2, 4)
